@@ -6,6 +6,7 @@
 From Coq Require Import ZArith List Bool.
 From DV Require Import Model.PyPrims Model.C19Model Model.C19RowHeap.
 From DV Require Import Proofs.C19RowHeapSep Proofs.C19RowHeapFrame.
+From DV Require Import Proofs.C19RefineRows Proofs.C19Refine Proofs.C19RefineHist Proofs.C19RefineSpecs.
 From DV Require Import Proofs.C19Alist Proofs.C19Rows Proofs.C19Cols Proofs.C19Concat Proofs.C19Proofs
                        Proofs.C19Slice Proofs.C19Step Proofs.C19Examples.
 Import ListNotations.
@@ -433,8 +434,324 @@ Theorem inplace_row_operation_names_one_row :
 Proof. exact rowop_names_one_row. Qed.
 Print Assumptions inplace_row_operation_names_one_row.
 
-(* NOT PROVED (time): `object_level_refines_value_level` - under separation,
-     abs_w (fst (o_step w (OBase b))) = fst (step (abs_w w) b)  and the results agree,
-   which would transfer every theorem above from rows-as-values to row objects.  The correspondence run
-   checks exactly this equation on every history (ocase_ok compares abs_w of the object-level model with the
-   implementation step by step, and case_ok the value model, on the same observations). *)
+(* ---------------------------------------------------------------------------------------------
+   REFINEMENT: the object level refines the value level.  abs_w dereferences every row id of every matrix
+   (abs_m s m = the matrix whose rows are the cells the store s holds for m's row objects).
+   The invariant of the refinement: separation (no row object under two slots, every held id allocated) and the
+   value-level well-formedness of the dereferenced state (dict keys unique, rows only for namespace taxa,
+   namespaces without repeated members - wellformed_invariant above).  Under it EVERY operation of the
+   value-level language, executed on row objects - copies by alloc; extend, fill's padding, export's column
+   deletion as in-place rewriting of ONE object's cells - yields after dereferencing exactly the state and the
+   result of the value-level model (proved for all 19 constructors of `op`, the aliased calls
+   m.extend_sequences(m) / m.extend_matrix(m) / m.add_sequences(m) ... included). *)
+Theorem object_level_refines_value_level :
+  forall (lower : lbl -> lbl) (suffix : lbl -> Z -> lbl) (locus : Z -> lbl) (w : oworld) (b : op),
+  ((NoDup (all_ids w) /\ forall r, In r (all_ids w) -> r < s_next (ow_store w)) /\
+   ((forall n T, aget n (ow_nss w) = Some T -> NoDup T) /\
+    (forall j m, aget j (w_ms (abs_w w)) = Some m ->
+                 NoDup (map fst (m_rows m)) /\ incl (map fst (m_rows m)) (taxa_of (abs_w w) (m_ns m))))) ->
+  (abs_w (fst (o_step lower suffix locus w (OBase b))), snd (o_step lower suffix locus w (OBase b)))
+  = step lower suffix locus (abs_w w) b.
+Proof. exact o_step_base_refines. Qed.
+Print Assumptions object_level_refines_value_level.
+
+(* the invariant is kept by every copying operation (the value-level ones and the in-place row operations) ... *)
+Theorem refinement_invariant_preserved :
+  forall (lower : lbl -> lbl) (suffix : lbl -> Z -> lbl) (locus : Z -> lbl) (w0 : oworld) (o : oop),
+  copying o = true ->
+  (let w := w0 in
+  ((NoDup (all_ids w) /\ forall r, In r (all_ids w) -> r < s_next (ow_store w)) /\
+   ((forall n T, aget n (ow_nss w) = Some T -> NoDup T) /\
+    (forall j m, aget j (w_ms (abs_w w)) = Some m ->
+                 NoDup (map fst (m_rows m)) /\ incl (map fst (m_rows m)) (taxa_of (abs_w w) (m_ns m)))))) ->
+  let w := fst (o_step lower suffix locus w0 o) in
+  ((NoDup (all_ids w) /\ forall r, In r (all_ids w) -> r < s_next (ow_store w)) /\
+   ((forall n T, aget n (ow_nss w) = Some T -> NoDup T) /\
+    (forall j m, aget j (w_ms (abs_w w)) = Some m ->
+                 NoDup (map fst (m_rows m)) /\ incl (map fst (m_rows m)) (taxa_of (abs_w w) (m_ns m))))).
+Proof. exact o_step_oinv. Qed.
+Print Assumptions refinement_invariant_preserved.
+
+(* ... holds for constructor-built matrices (o_init: every row a fresh object), whose abstraction is the
+   value-level world they were built from ... *)
+Theorem constructor_built_world_abstracts :
+  forall (nss : list (nsid * list tid)) (generic : bool) (ms : list (mid * matrix)),
+  abs_w (o_init nss generic ms) = mkW nss ms (zlen ms).
+Proof. exact abs_o_init. Qed.
+Print Assumptions constructor_built_world_abstracts.
+
+(* ... hence in every state reachable from them by any history of copying operations *)
+Theorem refinement_invariant_reachable :
+  forall (lower : lbl -> lbl) (suffix : lbl -> Z -> lbl) (locus : Z -> lbl) (nss : list (nsid * list tid)) (generic : bool) (ms : list (mid * matrix)) (ops : list oop),
+  ((forall n T, aget n nss = Some T -> NoDup T) /\
+   (forall j m, aget j ms = Some m ->
+                NoDup (map fst (m_rows m)) /\ incl (map fst (m_rows m)) (taxa_of (mkW nss ms (zlen ms)) (m_ns m)))) ->
+  forallb copying ops = true ->
+  let w := o_run lower suffix locus (o_init nss generic ms) ops in
+  ((NoDup (all_ids w) /\ forall r, In r (all_ids w) -> r < s_next (ow_store w)) /\
+   ((forall n T, aget n (ow_nss w) = Some T -> NoDup T) /\
+    (forall j m, aget j (w_ms (abs_w w)) = Some m ->
+                 NoDup (map fst (m_rows m)) /\ incl (map fst (m_rows m)) (taxa_of (abs_w w) (m_ns m))))).
+Proof. exact reachable_oinv. Qed.
+Print Assumptions refinement_invariant_reachable.
+
+(* whole histories of value-level operations commute with dereferencing *)
+Theorem object_level_history_refines_value_level :
+  forall (lower : lbl -> lbl) (suffix : lbl -> Z -> lbl) (locus : Z -> lbl) (nss : list (nsid * list tid)) (generic : bool) (ms : list (mid * matrix)) (bs : list op),
+  ((forall n T, aget n nss = Some T -> NoDup T) /\
+   (forall j m, aget j ms = Some m ->
+                NoDup (map fst (m_rows m)) /\ incl (map fst (m_rows m)) (taxa_of (mkW nss ms (zlen ms)) (m_ns m)))) ->
+  abs_w (o_run lower suffix locus (o_init nss generic ms) (map OBase bs))
+  = run_world lower suffix locus (mkW nss ms (zlen ms)) bs.
+Proof. exact history_refines. Qed.
+Print Assumptions object_level_history_refines_value_level.
+
+(* TRANSFER: whatever holds of every value-level step from a well-formed state (every theorem above is of that
+   form or a consequence of it) holds of every object-level step, read through the abstraction *)
+Theorem value_level_theorems_transfer :
+  forall (lower : lbl -> lbl) (suffix : lbl -> Z -> lbl) (locus : Z -> lbl) (P : world -> op -> world * out -> Prop),
+  (forall vw b,
+     ((forall n T, aget n (w_nss vw) = Some T -> NoDup T) /\
+      (forall j m, aget j (w_ms vw) = Some m ->
+                   NoDup (map fst (m_rows m)) /\ incl (map fst (m_rows m)) (taxa_of vw (m_ns m)))) ->
+     P vw b (step lower suffix locus vw b)) ->
+  forall (w : oworld) (b : op),
+  ((NoDup (all_ids w) /\ forall r, In r (all_ids w) -> r < s_next (ow_store w)) /\
+   ((forall n T, aget n (ow_nss w) = Some T -> NoDup T) /\
+    (forall j m, aget j (w_ms (abs_w w)) = Some m ->
+                 NoDup (map fst (m_rows m)) /\ incl (map fst (m_rows m)) (taxa_of (abs_w w) (m_ns m))))) ->
+  P (abs_w w) b (abs_w (fst (o_step lower suffix locus w (OBase b))), snd (o_step lower suffix locus w (OBase b))).
+Proof. exact transfer_step. Qed.
+Print Assumptions value_level_theorems_transfer.
+
+(* the hypotheses are satisfiable: the two-matrix example world ex_ow *)
+Theorem refinement_invariant_example :
+  let w := ex_ow in
+  ((NoDup (all_ids w) /\ forall r, In r (all_ids w) -> r < s_next (ow_store w)) /\
+   ((forall n T, aget n (ow_nss w) = Some T -> NoDup T) /\
+    (forall j m, aget j (w_ms (abs_w w)) = Some m ->
+                 NoDup (map fst (m_rows m)) /\ incl (map fst (m_rows m)) (taxa_of (abs_w w) (m_ns m))))).
+Proof. exact ex_ow_oinv. Qed.
+Print Assumptions refinement_invariant_example.
+
+(* ... and the well-formedness half of the invariant is needed: over a namespace that lists a taxon twice (not
+   constructible: a TaxonNamespace is an ordered set) export's loop over clone.values() reaches a row twice and
+   deletes columns twice, whereas the value-level model selects once.  Separation holds in the witness. *)
+Theorem object_level_refines_value_level_refuted_without_wellformedness :
+  let w := mkOW [(0, [0; 0])] (mkS [(0, [5; 6; 7])] 1) [(0, mkOM 0 None [(0, 0)] [])] 1 false in
+  let id1 : lbl -> lbl := fun x => x in
+  let id2 : lbl -> Z -> lbl := fun l _ => l in
+  let id3 : Z -> lbl := fun i => i in
+  (NoDup (all_ids w) /\ forall r, In r (all_ids w) -> r < s_next (ow_store w)) /\
+  (abs_w (fst (o_step id1 id2 id3 w (OBase (ExportIdx 0 [1])))), snd (o_step id1 id2 id3 w (OBase (ExportIdx 0 [1]))))
+  <> step id1 id2 id3 (abs_w w) (ExportIdx 0 [1]).
+Proof. exact refinement_needs_wf. Qed.
+Print Assumptions object_level_refines_value_level_refuted_without_wellformedness.
+
+(* ---- transferred corollaries, stated on object-level states ---- *)
+
+(* arguments unchanged (values): a matrix that is not the receiver holds the same cells afterwards
+   (arguments_unchanged_object_level above says more: the same objects with the same cells) *)
+Theorem arguments_unchanged_on_objects :
+  forall (lower : lbl -> lbl) (suffix : lbl -> Z -> lbl) (locus : Z -> lbl) (w : oworld) (b : op) (j : mid) (mj : omatrix),
+  ((NoDup (all_ids w) /\ forall r, In r (all_ids w) -> r < s_next (ow_store w)) /\
+   ((forall n T, aget n (ow_nss w) = Some T -> NoDup T) /\
+    (forall j m, aget j (w_ms (abs_w w)) = Some m ->
+                 NoDup (map fst (m_rows m)) /\ incl (map fst (m_rows m)) (taxa_of (abs_w w) (m_ns m))))) ->
+  aget j (ow_ms w) = Some mj -> receiver b <> Some j ->
+  let w' := fst (o_step lower suffix locus w (OBase b)) in
+  (exists mj', aget j (ow_ms w') = Some mj' /\ abs_m (ow_store w') mj' = abs_m (ow_store w) mj) /\
+  ow_nss w' = ow_nss w.
+Proof. exact arguments_unchanged_obj. Qed.
+Print Assumptions arguments_unchanged_on_objects.
+
+(* ... in every state of every history of copying operations from constructor-built matrices *)
+Theorem arguments_unchanged_in_every_history :
+  forall (lower : lbl -> lbl) (suffix : lbl -> Z -> lbl) (locus : Z -> lbl) (nss : list (nsid * list tid)) (generic : bool) (ms : list (mid * matrix)) (ops : list oop)
+         (b : op) (j : mid) (mj : omatrix),
+  ((forall n T, aget n nss = Some T -> NoDup T) /\
+   (forall j m, aget j ms = Some m ->
+                NoDup (map fst (m_rows m)) /\ incl (map fst (m_rows m)) (taxa_of (mkW nss ms (zlen ms)) (m_ns m)))) ->
+  forallb copying ops = true ->
+  let w := o_run lower suffix locus (o_init nss generic ms) ops in
+  aget j (ow_ms w) = Some mj -> receiver b <> Some j ->
+  let w' := fst (o_step lower suffix locus w (OBase b)) in
+  (exists mj', aget j (ow_ms w') = Some mj' /\ abs_m (ow_store w') mj' = abs_m (ow_store w) mj) /\
+  ow_nss w' = ow_nss w.
+Proof. exact arguments_unchanged_hist. Qed.
+Print Assumptions arguments_unchanged_in_every_history.
+
+Theorem all_operations_terminate_on_objects :
+  forall (lower : lbl -> lbl) (suffix : lbl -> Z -> lbl) (locus : Z -> lbl) (w : oworld) (b : op),
+  (forall l i j, lower (suffix l i) = lower (suffix l j) -> i = j) ->
+  ((NoDup (all_ids w) /\ forall r, In r (all_ids w) -> r < s_next (ow_store w)) /\
+   ((forall n T, aget n (ow_nss w) = Some T -> NoDup T) /\
+    (forall j m, aget j (w_ms (abs_w w)) = Some m ->
+                 NoDup (map fst (m_rows m)) /\ incl (map fst (m_rows m)) (taxa_of (abs_w w) (m_ns m))))) ->
+  snd (o_step lower suffix locus w (OBase b)) <> OErr Hang.
+Proof. exact terminates_obj. Qed.
+Print Assumptions all_operations_terminate_on_objects.
+
+Theorem all_operations_terminate_in_every_history :
+  forall (lower : lbl -> lbl) (suffix : lbl -> Z -> lbl) (locus : Z -> lbl) (nss : list (nsid * list tid)) (generic : bool) (ms : list (mid * matrix)) (ops : list oop) (b : op),
+  (forall l i j, lower (suffix l i) = lower (suffix l j) -> i = j) ->
+  ((forall n T, aget n nss = Some T -> NoDup T) /\
+   (forall j m, aget j ms = Some m ->
+                NoDup (map fst (m_rows m)) /\ incl (map fst (m_rows m)) (taxa_of (mkW nss ms (zlen ms)) (m_ns m)))) ->
+  forallb copying ops = true ->
+  snd (o_step lower suffix locus (o_run lower suffix locus (o_init nss generic ms) ops) (OBase b)) <> OErr Hang.
+Proof. exact terminates_hist. Qed.
+Print Assumptions all_operations_terminate_in_every_history.
+
+(* namespace refusal needs no invariant: nothing at all changes, not even the store *)
+Theorem foreign_namespace_refused_on_objects :
+  forall (lower : lbl -> lbl) (suffix : lbl -> Z -> lbl) (locus : Z -> lbl) (w : oworld) (b : op) (m other : mid) (mm mo : omatrix),
+  aget m (ow_ms w) = Some mm -> aget other (ow_ms w) = Some mo -> om_ns mo <> om_ns mm ->
+  (b = AddSeqs m other \/ b = ReplaceSeqs m other \/ b = UpdateSeqs m other \/
+   (exists a, b = ExtendSeqs m other a) \/ b = ExtendMatrix m other) ->
+  o_step lower suffix locus w (OBase b) = (w, OErr ValueErr).
+Proof. exact foreign_refused_obj. Qed.
+Print Assumptions foreign_namespace_refused_on_objects.
+
+(* fill on row objects: the receiver keeps its entry; its dereferenced rows satisfy fill_spec *)
+Theorem fill_spec_on_objects :
+  forall (lower : lbl -> lbl) (suffix : lbl -> Z -> lbl) (locus : Z -> lbl) (w : oworld) (m : mid) (mm : omatrix) (v : cell) (size : option Z) (app : bool),
+  ((NoDup (all_ids w) /\ forall r, In r (all_ids w) -> r < s_next (ow_store w)) /\
+   ((forall n T, aget n (ow_nss w) = Some T -> NoDup T) /\
+    (forall j m, aget j (w_ms (abs_w w)) = Some m ->
+                 NoDup (map fst (m_rows m)) /\ incl (map fst (m_rows m)) (taxa_of (abs_w w) (m_ns m))))) ->
+  aget m (ow_ms w) = Some mm ->
+  let T := otaxa_of w (om_ns mm) in
+  let M := abs_m (ow_store w) mm in
+  let r := o_step lower suffix locus w (OBase (Fill m v size app)) in
+  exists mm', aget m (ow_ms (fst r)) = Some mm' /\
+  let M' := abs_m (ow_store (fst r)) mm' in
+  let s := match size with Some s => s | None => max_sequence_size T (m_rows M) end in
+  snd r = OInt s /\
+  m_ns M' = m_ns M /\ m_label M' = m_label M /\ m_subs M' = m_subs M /\
+  map fst (m_rows M') = map fst (m_rows M) /\
+  (forall t, aget t (m_rows M') =
+             match aget t (m_rows M) with
+             | None => None
+             | Some r => Some (if app then r ++ repeat v (Z.to_nat (s - zlen r))
+                               else repeat v (Z.to_nat (s - zlen r)) ++ r)
+             end) /\
+  (forall t r r', aget t (m_rows M) = Some r -> aget t (m_rows M') = Some r' -> zlen r' = Z.max s (zlen r)) /\
+  (size = None -> forall t r', aget t (m_rows M') = Some r' -> zlen r' = s) /\
+  (size = None -> s = 0 \/ exists t r, aget t (m_rows M) = Some r /\ zlen r = s).
+Proof. exact fill_spec_obj. Qed.
+Print Assumptions fill_spec_on_objects.
+
+Theorem pack_spec_on_objects :
+  forall (lower : lbl -> lbl) (suffix : lbl -> Z -> lbl) (locus : Z -> lbl) (w : oworld) (m : mid) (mm : omatrix) (v : cell) (size : option Z) (app : bool),
+  ((NoDup (all_ids w) /\ forall r, In r (all_ids w) -> r < s_next (ow_store w)) /\
+   ((forall n T, aget n (ow_nss w) = Some T -> NoDup T) /\
+    (forall j m, aget j (w_ms (abs_w w)) = Some m ->
+                 NoDup (map fst (m_rows m)) /\ incl (map fst (m_rows m)) (taxa_of (abs_w w) (m_ns m))))) ->
+  aget m (ow_ms w) = Some mm ->
+  let T := otaxa_of w (om_ns mm) in
+  let M := abs_m (ow_store w) mm in
+  let r := o_step lower suffix locus w (OBase (Pack m v size app)) in
+  exists mm', aget m (ow_ms (fst r)) = Some mm' /\
+  let M' := abs_m (ow_store (fst r)) mm' in
+  let s := match size with Some s => s | None => max_sequence_size T (m_rows (fill_taxa T M)) end in
+  snd r = OUnit /\
+  m_ns M' = m_ns M /\ m_label M' = m_label M /\ m_subs M' = m_subs M /\
+  map fst (m_rows M') = map fst (m_rows M) ++ filter (fun t => negb (ahas t (m_rows M))) T /\
+  (forall t, In t T -> ahas t (m_rows M') = true) /\
+  (forall t, aget t (m_rows M') =
+             let pad0 r := if app then r ++ repeat v (Z.to_nat (s - zlen r))
+                           else repeat v (Z.to_nat (s - zlen r)) ++ r in
+             match aget t (m_rows M) with
+             | Some r => Some (pad0 r)
+             | None => if memb t T then Some (pad0 []) else None
+             end) /\
+  (size = None -> forall t r', aget t (m_rows M') = Some r' -> zlen r' = s).
+Proof. exact pack_spec_obj. Qed.
+Print Assumptions pack_spec_on_objects.
+
+(* export on row objects: a NEW matrix is appended to the world (its row objects are fresh: no_row_object_shared);
+   its dereferenced rows are exactly the selected columns in ascending order *)
+Theorem export_spec_on_objects :
+  forall (lower : lbl -> lbl) (suffix : lbl -> Z -> lbl) (locus : Z -> lbl) (w : oworld) (m : mid) (mm : omatrix) (idx : list Z) (d : cell),
+  ((NoDup (all_ids w) /\ forall r, In r (all_ids w) -> r < s_next (ow_store w)) /\
+   ((forall n T, aget n (ow_nss w) = Some T -> NoDup T) /\
+    (forall j m, aget j (w_ms (abs_w w)) = Some m ->
+                 NoDup (map fst (m_rows m)) /\ incl (map fst (m_rows m)) (taxa_of (abs_w w) (m_ns m))))) ->
+  aget m (ow_ms w) = Some mm ->
+  let M := abs_m (ow_store w) mm in
+  exists s' mm', o_step lower suffix locus w (OBase (ExportIdx m idx)) = (oadd_new w s' mm', ONew (ow_next w)) /\
+  let e := abs_m s' mm' in
+  m_ns e = m_ns M /\ m_label e = m_label M /\ m_subs e = [] /\
+  map fst (m_rows e) = map fst (m_rows M) /\
+  forall t, aget t (m_rows e) =
+            match aget t (m_rows M) with
+            | None => None
+            | Some r => Some (map (fun j => nth (Z.to_nat j) r d)
+                                  (filter (fun j => memb j idx) (zrange 0 (zlen r))))
+            end.
+Proof. exact export_spec_obj. Qed.
+Print Assumptions export_spec_on_objects.
+
+(* concatenate on row objects: a successful call appends a new matrix whose dereferenced value is what the
+   value-level concatenate returns on the dereferenced arguments; these satisfy the side conditions of
+   concatenate_spec / concatenate_subset_selects_source, so both apply to it verbatim *)
+Theorem concatenate_spec_on_objects :
+  forall (lower : lbl -> lbl) (suffix : lbl -> Z -> lbl) (locus : Z -> lbl) (w : oworld) (l : list mid) (cms : list omatrix) (j : mid),
+  ((NoDup (all_ids w) /\ forall r, In r (all_ids w) -> r < s_next (ow_store w)) /\
+   ((forall n T, aget n (ow_nss w) = Some T -> NoDup T) /\
+    (forall j m, aget j (w_ms (abs_w w)) = Some m ->
+                 NoDup (map fst (m_rows m)) /\ incl (map fst (m_rows m)) (taxa_of (abs_w w) (m_ns m))))) ->
+  oget_all (ow_ms w) l = Some cms -> snd (o_step lower suffix locus w (OBase (Concat l))) = ONew j ->
+  exists s' mm', fst (o_step lower suffix locus w (OBase (Concat l))) = oadd_new w s' mm' /\ j = ow_next w /\
+  concatenate lower suffix locus (otaxa_of w) (map (abs_m (ow_store w)) cms) = Ok (abs_m s' mm') /\
+  (forall n, NoDup (otaxa_of w n)) /\
+  Forall (fun cm => NoDup (map fst (m_rows cm)) /\ incl (map fst (m_rows cm)) (otaxa_of w (m_ns cm)))
+         (map (abs_m (ow_store w)) cms).
+Proof. exact concatenate_spec_obj. Qed.
+Print Assumptions concatenate_spec_on_objects.
+
+(* the row algebra on row objects: whenever the value-level operation returns M on the dereferenced receiver and
+   argument, the object-level step leaves the receiver dereferencing to M (so add_ / replace_ / update_ /
+   extend_sequences_spec and extend_matrix_spec apply); spelled out for extend_sequences below *)
+Theorem row_algebra_on_objects :
+  forall (lower : lbl -> lbl) (suffix : lbl -> Z -> lbl) (locus : Z -> lbl) (w : oworld) (b : op) (m o : mid) (mm mo : omatrix) (fv : matrix -> matrix -> res matrix),
+  ((NoDup (all_ids w) /\ forall r, In r (all_ids w) -> r < s_next (ow_store w)) /\
+   ((forall n T, aget n (ow_nss w) = Some T -> NoDup T) /\
+    (forall j m, aget j (w_ms (abs_w w)) = Some m ->
+                 NoDup (map fst (m_rows m)) /\ incl (map fst (m_rows m)) (taxa_of (abs_w w) (m_ns m))))) ->
+  aget m (ow_ms w) = Some mm -> aget o (ow_ms w) = Some mo ->
+  (b = AddSeqs m o /\ fv = add_sequences \/ b = ReplaceSeqs m o /\ fv = replace_sequences \/
+   b = UpdateSeqs m o /\ fv = update_sequences \/
+   (exists a, b = ExtendSeqs m o a /\ fv = fun x y => extend_sequences x y a) \/
+   b = ExtendMatrix m o /\ fv = extend_matrix) ->
+  forall M, fv (abs_m (ow_store w) mm) (abs_m (ow_store w) mo) = Ok M ->
+  let r := o_step lower suffix locus w (OBase b) in
+  exists mm', aget m (ow_ms (fst r)) = Some mm' /\ abs_m (ow_store (fst r)) mm' = M /\ snd r = OUnit.
+Proof. exact binary_obj. Qed.
+Print Assumptions row_algebra_on_objects.
+
+Theorem extend_sequences_spec_on_objects :
+  forall (lower : lbl -> lbl) (suffix : lbl -> Z -> lbl) (locus : Z -> lbl) (w : oworld) (m o : mid) (mm mo : omatrix) (addnew : bool),
+  ((NoDup (all_ids w) /\ forall r, In r (all_ids w) -> r < s_next (ow_store w)) /\
+   ((forall n T, aget n (ow_nss w) = Some T -> NoDup T) /\
+    (forall j m, aget j (w_ms (abs_w w)) = Some m ->
+                 NoDup (map fst (m_rows m)) /\ incl (map fst (m_rows m)) (taxa_of (abs_w w) (m_ns m))))) ->
+  aget m (ow_ms w) = Some mm -> aget o (ow_ms w) = Some mo -> om_ns mo = om_ns mm ->
+  let M := abs_m (ow_store w) mm in
+  let O := abs_m (ow_store w) mo in
+  let r := o_step lower suffix locus w (OBase (ExtendSeqs m o addnew)) in
+  snd r = OUnit /\
+  exists mm', aget m (ow_ms (fst r)) = Some mm' /\
+  let M' := abs_m (ow_store (fst r)) mm' in
+  m_ns M' = m_ns M /\ m_label M' = m_label M /\ m_subs M' = m_subs M /\
+  (forall t, aget t (m_rows M') = match aget t (m_rows M), aget t (m_rows O) with
+                                  | Some r, Some r' => Some (r ++ r')
+                                  | Some r, None => Some r
+                                  | None, Some r' => if addnew then Some r' else None
+                                  | None, None => None
+                                  end) /\
+  map fst (m_rows M') = map fst (m_rows M) ++
+                        (if addnew then filter (fun t => negb (ahas t (m_rows M))) (map fst (m_rows O)) else []).
+Proof. exact extend_sequences_spec_obj. Qed.
+Print Assumptions extend_sequences_spec_on_objects.
